@@ -21,6 +21,8 @@ INVARIANT EncSound
 INVARIANT EncComplete
 INVARIANT SolveMeetsProperty
 INVARIANT LoopOptimal
+INVARIANT TableIsObj
+INVARIANT FastIsTable
 INVARIANT LoopNoShapes
 PROPERTY BoundGrows
 PROPERTY StrictlyGrows
